@@ -166,6 +166,20 @@ def roots(tier, seed):
                         case["explore"] = 1
                         case["tag"]["special2"] = "debug-faults"
                         out.append(case)
+    #     ... and on a copy with tiny variables, a large objective and a huge radius (long steps along rows of
+    #     order 1e5: the rounding of the rotated steps is amplified)
+    for n in (2, 3):
+        for cons in ["ball_two", "ball_eq"]:
+            for obj in ["abs", "quad"]:
+                for consts in ({}, {"decrease_resolution_factor": 0.5, "moderate_resolution_threshold": 1.5,
+                                    "large_resolution_threshold": 2.0}):
+                    case = alpha.base_case(n, ("free",) * n, "on", obj, cons, constants=consts,
+                                           options={"debug": True, "maxfev": 60, "radius_init": 2.0 ** 20,
+                                                    "radius_final": 2.0 ** 10})
+                    cover.apply_scales(case, 2.0 ** -20, 2.0 ** 40, 1.0, 2.0 ** 30)
+                    case["explore"] = 1
+                    case["tag"]["special2"] = "debug-faults-long-steps"
+                    out.append(case)
     # (F) malformed arguments
     for name in MALFORMED:
         out.append({"malformed": name, "n": 2})
